@@ -5,7 +5,7 @@
    and the root of the copy carries the attributes and the comment of the original root.  For every table set. *)
 From AV Require Import Base.Bytes Base.Outcome Hash.HashModel Tree.Heap Tree.Ops Tree.Script Tree.Copy
   Tree.CopyProofsW Tree.CopyProofsDefs Tree.CopyProofsDeep Tree.CopyProofsCreate Tree.CopyProofsTop
-  Tree.CopyProofsFK Tree.Frame.
+  Tree.CopyProofsFK Tree.Frame Tree.CopyProofsReg.
 From Coq Require Import Lia PeanoNat.
 Open Scope string_scope.
 Open Scope list_scope.
@@ -335,14 +335,6 @@ Definition dfs_kids (dfs : id -> W (list id)) : list citem -> W (list id) :=
 Lemma dfs_ids_S f i :
   dfs_ids (S f) i = (do n <- get_node i; do rest <- dfs_kids (dfs_ids f) (n_content n); wret (i :: rest))%W.
 Proof. reflexivity. Qed.
-
-Lemma Sub_prepend w i n c x :
-  w_nodes w i = Some n -> In (CElem c) (n_content n) -> Sub w c x -> Sub w i x.
-Proof.
-  intros Hn Hin HS. induction HS as [|p m y HS IH Hp Hy].
-  - econstructor; [constructor | exact Hn | exact Hin].
-  - econstructor; eauto.
-Qed.
 
 Lemma dfs_ids_Sub f : forall i w r w', dfs_ids f i w = Val (r, w') -> forall l, r = OK l -> forall x, In x l -> Sub w i x.
 Proof.
